@@ -30,5 +30,5 @@ Extraction "model.ml"
   cop cuop wbin wcompound ccompound cincdec wincdec code_postdec_ok common promote
   bytes_le le_val write read encode decode store_int load_int load_cv_ptr load_range range_footprint range_checked
   store_ptr load_ptr store_bits load_bits code_cv_reads_guest_width
-  run spec nest closes crossings rans world_slot_of
+  run spec nest closes crossings rans world_slot_of thread_states expected_states
   sizeof alignof offsets labi_host labi_lp32 labi_lp32_16 labi_wide labi_lp32_64.
